@@ -37,7 +37,11 @@ class C17(Prop):
                 "compressAxis_labels", "fillna_spec", "setna_spec", "dropna_mask_spec", "takeAxisPos_selects", "sortAxis_spec", "argsortBy_isStableArgsort", "sortAxis_ok_iff", "sortAxis_of_sorted", "sortAxis_idempotent",
                 "compressAxis_spec", "keptPositions_spec", "compressAxis_ok_iff", "dropna_spec", "dropna_error", "dropna_rank1",
                 "dropna_no_nan", "takeAxis_position_spec", "takeAxis_label_spec", "takeAxis_label_ok", "fillna_no_nan", "fillna_idempotent",
-                "setna_isnan", "setna_fillna"]
+                "setna_isnan", "setna_fillna",
+                "isStableArgsortBy_iff_map", "isStableArgsortBy_id", "IsStableArgsortBy.unique", "sortAxis_key_spec",
+                "sortAxis_key_total_spec", "sortAxis_key_sorted", "sortAxis_key_ok_iff", "sortAxis_key_error",
+                "sortAxis_key_ident", "sortAxis_key_neg_descending",
+                "compressNd_spec", "compressNd_complete", "compressNd_coord", "compressNd_rank1", "compressNd_ok_iff"]
     rule = ("arrays of rank 1-4 with unsorted int/float/str labels, every axis by name / position / negative position, NaN "
             "patterns none / some / whole slices / all; sort_axis (plain, key function, dict key), take_axis (labels / "
             "positions / indexing left out, repeats, array or list indices, mode raise / clip / wrap, side=), compress_axis "
@@ -45,8 +49,19 @@ class C17(Prop):
             "mask (ndarray or DimArray), dropna with minvalid from 0 to the slice size (default for 1-D), axis left out, "
             "int data, fillna / setna on int and float data with scalar, list and boolean-mask (ndarray or DimArray) "
             "arguments; na= sentinels for dropna / fillna / setna (oracle only). "
+            "STRATUM keyfn: sort_axis(key=...) with the key drawn from a closed family that the model evaluates itself "
+            "(Lib.KeyFn: identity, -x, abs, len, s[::-1], x % m, constant, dict with tied / string / mixed / missing "
+            "entries), the very same callable / dict handed to the library: model (Lib.sortAxisKey, stable argsort of the "
+            "key values) and implementation compared on labels, values, metadata and on the exception class when the key "
+            "raises or its values cannot be compared; the older key forms (key_neg, key_rev, dict) go through the same mirror. "
+            "STRATUM compress_nd: full-shape boolean compress / a[mask] (ndarray or DimArray mask) against Lib.compressNd: "
+            "rank 1 = compress_axis, rank >= 2 = 1-D array over an axis of label tuples named by the joined dimension "
+            "names, cells in C order; masks of the wrong rank (ValueError) or shape (IndexError). "
             "Non-trivial = operated axis longer than 1; distinct = canonical JSON")
-    assumptions = ["labels unique per axis"]
+    assumptions = ["labels unique per axis",
+                   "sort_axis(key=...): the key is compared on a closed family of key functions (Lib.KeyFn); unsigned label "
+                   "dtypes are not combined with the key -x (NumPy's unsigned negation wraps around; the key is the user's)",
+                   "compress: plain (non-grouped) axes"]
 
     def mirrors(self):
         import sys as _s
@@ -55,7 +70,8 @@ class C17(Prop):
         from dimarray.core import dimarraycls
         return {"sort_axis": al.sort_axis, "argsort": al.argsort, "take_axis": dimarraycls.DimArray.take_axis,
                 "compress_axis": dimarraycls.DimArray.compress_axis, "dropna": mv.dropna, "fillna": mv.fillna,
-                "setna": mv.setna, "_matches": mv._matches}
+                "setna": mv.setna, "_matches": mv._matches, "compress": dimarraycls.DimArray.compress,
+                "getaxes_broadcast": _s.modules["dimarray.core.indexing"].getaxes_broadcast}
 
     def gen(self, rng, tier):
         n = 1400 if tier == "quick" else 30000
@@ -75,10 +91,14 @@ class C17(Prop):
             r = rng.random()
             if r < 0.16:
                 arr["vkind"] = rng.choice(["f", "i"])
-                how = rng.choice(["plain", "plain", "key_neg", "dict"])
+                how = rng.choice(["plain", "plain", "key_neg", "dict", "keyfn", "keyfn", "keyfn"])
                 if how == "key_neg" and arr["axes"][d]["kind"] == "O":
                     how = rng.choice(["dict", "key_rev"])       # key_rev: each string label read backwards
                 c = {"op": "sort_axis", "array": arr, "axis": axk, "how": how}
+                if how == "keyfn":
+                    c["key"] = rand_key(rng, arr["axes"][d])
+                if how in ("keyfn", "key_neg") and str(arr["axes"][d].get("ldtype", "")).startswith("uint"):
+                    del arr["axes"][d]["ldtype"]                # -x on an unsigned NumPy scalar wraps around
                 if how == "dict":
                     order = list(range(len(L)))
                     rng.shuffle(order)
@@ -137,8 +157,17 @@ class C17(Prop):
                 dens = rng.choice([0.0, 0.3, 0.5, 1.0])
                 # axes of mixed string / numeric kinds included: every component of a cell's tuple label keeps its type
                 # ((3, 'a'), not ('3', 'a'))
-                yield {"op": "compress", "array": arr, "mask": [rng.random() < dens for _ in range(nn)],
-                       "maskform": rng.choice(["array", "dimarray", "getitem", "getitem_dimarray"])}
+                c = {"op": "compress", "array": arr, "mask": [rng.random() < dens for _ in range(nn)],
+                     "maskform": rng.choice(["array", "dimarray", "getitem", "getitem_dimarray"])}
+                if rng.random() < 0.15:
+                    # a mask of the wrong rank (ValueError) or of the right rank and the wrong shape (IndexError)
+                    ms = rng.choice([[1] + shape, shape + [1], shape[:-1] + [shape[-1] + 1], [shape[0] + 1] + shape[1:],
+                                     shape[::-1]])
+                    if ms != shape:
+                        c["mshape"] = ms
+                        c["maskform"] = "array"
+                        c["mask"] = [rng.random() < 0.5 for _ in range(int(np.prod(ms)))]
+                yield c
             elif r < 0.76:
                 arr["vkind"] = "f" if rng.random() < 0.85 else "i"
                 c = {"op": "dropna", "array": arr, "axis": axk}
@@ -200,6 +229,8 @@ class C17(Prop):
                         r = a.sort_axis(axis=ax, key=lambda x: -float(x))
                     elif c["how"] == "key_rev":
                         r = a.sort_axis(axis=ax, key=lambda s: s[::-1])
+                    elif c["how"] == "keyfn":
+                        r = a.sort_axis(axis=ax, key=py_key(c["key"]))
                     else:
                         pos = a.dims.index(ax) if isinstance(ax, str) else ax
                         labs = a.axes[pos].values.tolist()
@@ -226,7 +257,7 @@ class C17(Prop):
                         m = DimArray(m, axes=[a.axes[ax].copy()])
                     r = a.compress_axis(m, axis=ax)
                 elif c["op"] == "compress":
-                    m = np.array(c["mask"], dtype=bool).reshape(a.shape)
+                    m = np.array(c["mask"], dtype=bool).reshape(c.get("mshape") or a.shape)
                     if c["maskform"] in ("dimarray", "getitem_dimarray"):
                         m = DimArray(m, axes=[x.copy() for x in a.axes])
                     r = a[m] if c["maskform"].startswith("getitem") else a.compress(m)
@@ -272,7 +303,7 @@ class C17(Prop):
 
     def request(self, c):
         if not modelled(c):
-            # na= sentinels, the full-shape compress and masks of the wrong length are not in the mirror: the oracles decide
+            # na= sentinels and compress_axis masks of the wrong length are not in the mirror: the oracles decide
             return {"op": "union", "a": {"name": "x", "kind": "i", "labels": []}, "b": {"name": "x", "kind": "i", "labels": []}, "join": "outer"}
         toks = core.AttrTokens()
         arr = core.lean_array(gen.clean(c["array"]), toks)
@@ -280,18 +311,11 @@ class C17(Prop):
         if c["op"] == "sort_axis":
             if c["how"] == "plain":
                 return {"op": "sort_axis", "arrays": [arr], "axis": axk}
-            # sorting by a key = positional take by the argsort of the keys (the mirror of `argsort(seq, key)`)
-            d = axis_pos(c)
-            L = c["array"]["axes"][d]["labels"]
-            if c["how"] == "key_neg":
-                keys = [-Fraction(l[1], l[2]) for l in L]
-            elif c["how"] == "key_rev":
-                keys = [l[1][::-1] for l in L]
-            else:
-                keys = c["ranks"]
-            order = sorted(range(len(L)), key=lambda i: keys[i])
-            return {"op": "transform", "fn": "take_axis", "arrays": [arr], "axis": axk,
-                    "indices": [["n", i, 1] for i in order], "indexing": "position", "clip": False}
+            # the key is a function on labels: the model evaluates the same key (Lib.KeyFn) and sorts by it itself
+            return {"op": "sort_axis_key", "arrays": [arr], "axis": axk, "key": model_key(c)}
+        if c["op"] == "compress":
+            return {"op": "compress_nd", "arrays": [arr], "mask": c["mask"],
+                    "mshape": c.get("mshape") or [len(a["labels"]) for a in c["array"]["axes"]]}
         if c["op"] == "take_axis":
             mode, ix = take_mode(c), c["indices"]
             if mode == "wrap":
@@ -314,6 +338,8 @@ class C17(Prop):
         a = build(c)
         fillv = 9 if c.get("fill") == "int" else 2.5
         if lean is not None:
+            if "ok" in lean and c["op"] == "compress":
+                lean = {"ok": compress_obs(lean["ok"])}
             if "ok" in lean:
                 env = core.CellEnv([a.values], fill=fillv)
                 k = lean["ok"]["vkind"]
@@ -325,7 +351,9 @@ class C17(Prop):
             inp, out = io["input"], io["ok"]
             if out["attrs"] != inp["attrs"]:
                 prop_bad.append("attrs")
-            if c["op"] == "compress":
+            if c["op"] == "compress" and c.get("mshape"):
+                prop_bad.append("outcome:ok")
+            elif c["op"] == "compress":
                 prop_bad += check_compress(c, inp, out)
             elif c["op"] in ("sort_axis", "take_axis", "compress_axis", "dropna"):
                 dname = inp["dims"][axis_pos(c)]
@@ -342,6 +370,12 @@ class C17(Prop):
                             prop_bad.append("axes.labels:key_order")
                         if c["how"] == "key_rev" and [x[1][::-1] for x in ol] != sorted(l[1][::-1] for l in L):
                             prop_bad.append("axes.labels:key_order")
+                        if c["how"] == "keyfn":
+                            want = keyed_order(c["key"], L)
+                            if want is None:
+                                prop_bad.append("outcome:ok")          # the key raises / its values do not compare
+                            elif [lab_key(x) for x in ol] != [lab_key(L[i]) for i in want]:
+                                prop_bad.append("axes.labels:key_order")
                         if c["how"] == "dict":
                             rk = dict(zip(map(lab_key, L), c["ranks"]))
                             if [rk[lab_key(x)] for x in ol] != sorted(c["ranks"]):
@@ -391,6 +425,10 @@ class C17(Prop):
                         prop_bad.append("values:frame"); break
                 if [(x["name"], x["labels"]) for x in out["axes"]] != [(x["name"], x["labels"]) for x in inp["axes"]]:
                     prop_bad.append("axes")
+        elif c["op"] == "sort_axis" and c["how"] == "keyfn" and keyed_order(c["key"], c["array"]["axes"][axis_pos(c)]["labels"]) is None:
+            pass                                                       # the key itself raises: an error is the right outcome
+        elif c["op"] == "compress" and c.get("mshape"):
+            pass                                                       # a mask of the wrong shape must be refused
         elif lean is not None and "ok" in lean:
             prop_bad.append("outcome:" + io["err"])
         elif lean is None and not (c["op"] == "compress_axis" and len(c["mask"]) != len(io["input"]["axes"][axis_pos(c)]["labels"])):
@@ -418,6 +456,10 @@ class C17(Prop):
         if c["op"] == "compress_axis":
             f["masklen"] = "axis" if len(c["mask"]) == len(c["array"]["axes"][axis_pos(c)]["labels"]) else "wrong"
         f["modelled"] = modelled(c)
+        if c.get("key"):
+            f["key"] = c["key"][0] if c["key"][0] != "table" else "table:" + c["key"][2]
+        if c["op"] == "compress":
+            f["mask_shape"] = "wrong" if c.get("mshape") else "full"
         return f
 
     def size(self, c):
@@ -447,7 +489,7 @@ def take_mode(c):
 
 def modelled(c):
     """does the Lean mirror model this form?"""
-    if c.get("na") is not None or c["op"] == "compress":
+    if c.get("na") is not None:
         return False
     if c["op"] == "compress_axis" and len(c["mask"]) != len(c["array"]["axes"][axis_pos(c)]["labels"]):
         return False
@@ -552,6 +594,115 @@ def check_compress(c, inp, out):
             if g[0] != "t" or [lab_key(x) for x in g[1]] != w:
                 bad.append("axes.labels:cell"); break
     return bad
+
+
+# ------------------------------------------------------------------ key functions of the closed family Lib.KeyFn
+def rand_key(rng, ax):
+    """a key of the closed family, mostly one that fits the labels' type, sometimes one that raises on them"""
+    L, numeric = ax["labels"], ax["kind"] in ("i", "f")
+    fits = ["ident", "neg", "abs", "const", "table", "table"] + (["mod"] if ax["kind"] == "i" else []) if numeric \
+        else ["ident", "len", "rev", "const", "table", "table"]
+    misfits = ["len", "rev"] if numeric else ["neg", "abs", "mod"]
+    t = rng.choice(misfits) if rng.random() < 0.12 else rng.choice(fits)
+    if t == "mod":
+        return ["mod", rng.choice([1, 2, 3, 5])]
+    if t != "table":
+        return [t]
+    flavour = rng.choice(["ties", "ties", "perm", "str", "frac", "missing", "mixed"])
+    n = len(L)
+    if flavour == "ties":
+        vals = [["n", rng.randrange(2), 1] for _ in L]                       # equal ranks: stability decides
+    elif flavour == "perm":
+        o = list(range(n)); rng.shuffle(o)
+        vals = [["n", k, 1] for k in o]
+    elif flavour == "str":
+        vals = [["s", rng.choice(["p", "q", "pq", ""])] for _ in L]
+    elif flavour == "frac":
+        vals = [["n", rng.randrange(-3, 4), rng.choice([1, 2, 4])] for _ in L]
+        vals = [gen.enc(Fraction(v[1], v[2])) for v in vals]
+    elif flavour == "missing":
+        vals = [["n", k, 1] for k in range(n)]
+    else:
+        vals = [["n", k, 1] if k % 2 else ["s", "p"] for k in range(n)]  # numbers and strings do not compare
+    rows = [[l, v] for l, v in zip(L, vals)]
+    if flavour == "missing" and rows:
+        del rows[rng.randrange(len(rows))]                                   # KeyError for that label
+    rng.shuffle(rows)
+    return ["table", rows, flavour]
+
+
+def _pyval(e):
+    if e[0] == "s":
+        return e[1]
+    fr = Fraction(e[1], e[2])
+    return int(fr) if fr.denominator == 1 else float(fr)
+
+
+def py_key(key):
+    """the callable / dict handed to sort_axis"""
+    t = key[0]
+    if t == "table":
+        return {_pyval(k): _pyval(v) for k, v in key[1]}
+    if t == "mod":
+        m = key[1]
+        return lambda x: x % m
+    return {"ident": lambda x: x, "neg": lambda x: -x, "abs": abs, "len": len, "rev": lambda s: s[::-1],
+            "const": lambda x: 0}[t]
+
+
+def model_key(c):
+    """the same key for the Lean driver"""
+    L = c["array"]["axes"][axis_pos(c)]["labels"]
+    if c["how"] == "key_neg":
+        return ["neg"]
+    if c["how"] == "key_rev":
+        return ["rev"]
+    if c["how"] == "dict":
+        return ["table", [[l, gen.enc(Fraction(r))] for l, r in zip(L, c["ranks"])]]
+    return c["key"][:2]
+
+
+def keyed_order(key, L):
+    """ORACLE (from the property text, independent of the model): the positions of the labels in stable ascending order of
+    their key values, computed on exact values; None when the key raises on some label or two key values do not compare"""
+    def ev(l):
+        t = key[0]
+        if t == "ident":
+            return l
+        if t == "const":
+            return ["n", 0, 1]
+        if t == "table":
+            hit = [v for k, v in key[1] if lab_key(k) == lab_key(l)]
+            if not hit:
+                raise KeyError(l)
+            return hit[0]
+        if t in ("neg", "abs", "mod"):
+            if l[0] != "n":
+                raise TypeError(t)
+            fr = Fraction(l[1], l[2])
+            fr = -fr if t == "neg" else abs(fr) if t == "abs" else fr - key[1] * math.floor(fr / key[1])
+            return ["n", fr.numerator, fr.denominator]
+        if l[0] != "s":
+            raise TypeError(t)
+        return ["n", len(l[1]), 1] if t == "len" else ["s", l[1][::-1]]
+    try:
+        ks = [ev(l) for l in L]
+    except (TypeError, KeyError):
+        return None
+    if len(ks) >= 2 and len({k[0] for k in ks}) > 1:
+        return None
+    vals = [Fraction(k[1], k[2]) if k[0] == "n" else k[1] for k in ks]
+    return sorted(range(len(L)), key=vals.__getitem__)
+
+
+def compress_obs(ok):
+    """answer of the driver's compress_nd -> an observation in the form of core.obs_array: the 1-D array over the axis of
+    label tuples (rank != 1), or the array itself (rank 1)"""
+    if "array" in ok:
+        return ok["array"]
+    t = ok["tuple"]
+    return {"dims": [t["name"]], "shape": [len(t["cells"])], "vkind": t["vkind"], "attrs": t["attrs"], "cells": t["cells"],
+            "axes": [{"name": t["name"], "kind": "O", "labels": [["t", c] for c in t["coords"]], "attrs": [], "members": []}]}
 
 
 PROP = C17()
